@@ -31,7 +31,8 @@ def _limits():
 
 
 def run(ctx):
-    ctx.stage_xlate()
+    ctx.stage_xlate(required_assertions=["legacy:resultsBufferCap", "legacy:resultsBufferCap-shape",
+                                         "legacy:SearchWithOptions-uses-resultsBufferCap", "legacy:SearchWithPipelineOptions-uses-resultsBufferCap"])
     ctx.stage_prove(THEOREMS)
     if not ctx.stage_build():
         return
